@@ -119,6 +119,10 @@ func printStmt(sb *strings.Builder, s Stmt, d int) {
 			fmt.Fprintf(sb, "%sfor ($%s = 0; $%s < %d; $%s++) {\n", in, x.K.Name, x.K.Name, x.N, x.K.Name)
 			printStmts(sb, x.Body, d+1)
 			fmt.Fprintf(sb, "%s}\n", in)
+		case KForDown:
+			fmt.Fprintf(sb, "%sfor (; $%s > 0; $%s--) {\n", in, x.K.Name, x.K.Name)
+			printStmts(sb, x.Body, d+1)
+			fmt.Fprintf(sb, "%s}\n", in)
 		case KForeach:
 			src := "$" + x.OverV
 			if x.OverV == "" {
